@@ -102,7 +102,12 @@ def run(ctx):
             for b in keys:
                 got = p.interaction_matrix.get_value(a, b)
                 exp = c["mat"][a][b]
-                if (got if got is not None else "none") != exp:
+                # numeric entries of a row are stored as numbers, in both orientations
+                try:
+                    exp = float(exp)
+                except ValueError:
+                    pass
+                if (got if got is not None else "none") != exp or type(got if got is not None else "none") is not type(exp):
                     problems.append(("matrix", f"get_value({a},{b})={got!r} expected {exp!r}"))
                 gp = p.sidechain_cutoffs.get_value(a, b)
                 if tuple(float(x) for x in gp) != tuple(float(x) for x in c["pair"][a][b]):
